@@ -399,7 +399,69 @@ func oracleLines(db *database.Database, q string) []string {
 	return append(lines, "fz "+fz)
 }
 
+// SearchRecord is one executed search of a case, as seen by the property monitors.
+type SearchRecord struct {
+	DB      *database.Database
+	Query   string
+	Opts    database.SearchOptions
+	Results []database.SearchResult
+	IDs     []int // positions of the results in DB.Commands
+	Panic   string
+}
+
+// searchMonitors are evaluated after every `search` op of the `search` domain; prev holds the earlier
+// searches of the same case (same database), so paired-run properties can be checked.  Each property
+// registers its monitor from its own file (harness/mon_cXX.go) in init().
+var searchMonitors []func(mon *Mon, cur *SearchRecord, prev []*SearchRecord)
+
+// searchStreams are alternative generators for the `search` domain, selected with -arg stream=<name>.
+var searchStreams = map[string]func(r *Rng, tier string, idx int, args map[string]string) []string{}
+
+// SearchCaseOps renders a database plus a list of (query, options) requests as op lines of the
+// `search` domain (with the oracle lines the model needs).  Used by the directed streams.
+func SearchCaseOps(cmds []database.Command, reqs []SearchReq, extra []string) []string {
+	db := buildDB(cmds, nil)
+	ops := []string{"host " + Hx(database.VerifCurrentPlatform())}
+	texts := []string{"Kİſ"}
+	for i := range db.Commands {
+		c := &db.Commands[i]
+		texts = append(texts, c.Command, c.Description)
+		texts = append(texts, c.Keywords...)
+		texts = append(texts, c.Tags...)
+		texts = append(texts, c.Platform...)
+	}
+	for _, q := range reqs {
+		texts = append(texts, q.Query)
+		texts = append(texts, q.Opts.Platforms...)
+	}
+	ops = append(ops, runeInfoLines(texts)...)
+	for i := range db.Commands {
+		ops = append(ops, cmdLine(&db.Commands[i]))
+	}
+	for df := 0; df <= len(db.Commands); df++ {
+		ops = append(ops, "idf "+Itoa(df)+" "+F(database.VerifIDF(len(db.Commands), df)))
+	}
+	last := "\x00none"
+	for _, q := range reqs {
+		if q.Query != last {
+			ops = append(ops, oracleLines(db, q.Query)...)
+			last = q.Query
+		}
+		ops = append(ops, "search "+Hx(q.Query)+" "+optsTokens(q.Opts))
+	}
+	return append(ops, extra...)
+}
+
+// SearchReq is one request of a directed case.
+type SearchReq struct {
+	Query string
+	Opts  database.SearchOptions
+}
+
 func genSearch(r *Rng, tier string, idx int, args map[string]string) []string {
+	if st, ok := searchStreams[args["stream"]]; ok {
+		return st(r, tier, idx, args)
+	}
 	maxN := 40
 	if tier == "thorough" {
 		maxN = 120
@@ -488,6 +550,7 @@ func execSearch(ops []string, mon *Mon) []string {
 	out := make([]string, 0, len(ops))
 	var cmds []database.Command
 	var db *database.Database
+	var prev []*SearchRecord
 	getDB := func() *database.Database {
 		if db == nil {
 			db = buildDB(cmds, mon)
@@ -521,17 +584,27 @@ func execSearch(ops []string, mon *Mon) []string {
 			q := UnHx(f[1])
 			op := parseOpts(f[2:])
 			line := ""
+			rec := &SearchRecord{DB: d, Query: q, Opts: op}
 			func() {
 				defer func() {
 					if r := recover(); r != nil {
 						line = "panic:" + panicClass(r)
-						mon.Hit("C10", "search-panic", map[string]interface{}{"query": q, "panic": strings.ReplaceAll(toStr(r), "\n", " ")})
+						rec.Panic = strings.ReplaceAll(toStr(r), "\n", " ")
+						mon.Hit("C10", "search-panic", map[string]interface{}{"query": q, "panic": rec.Panic})
 					}
 				}()
 				rs := d.SearchUniversal(q, op)
 				line = fmtResults(d, rs)
+				rec.Results = rs
+				for _, x := range rs {
+					rec.IDs = append(rec.IDs, d.VerifIndexOf(x.Command))
+				}
 				monitorSearch(mon, d, q, op, rs)
 			}()
+			for _, m := range searchMonitors {
+				m(mon, rec, prev)
+			}
+			prev = append(prev, rec)
 			out = append(out, line)
 		default:
 			out = append(out, "bad-op")
